@@ -243,8 +243,39 @@ def r14_7(ck, F):
                   "subs.retain is not guarded by is_none() of the list's request channel", b.loc(bb))
 
 
+def r14_8(ck, F):
+    ck.rule("R14.8", "the relay channel of a mirror ends with the mirror task: a Mirrored* handle owns no strong "
+            "rch::broadcast::Sender of the relay channel (a Weak reference at most) — the task that applies the events is the "
+            "only owner, so that its subscribers observe Closed whenever the task stops (error, done, handle dropped)",
+            "observed collection dropped before done() (or the first-level subscription lagged / exceeded max_size): the "
+            "first-level mirror reports the error, but a subscription taken from that mirror receives no further event and no "
+            "error for as long as the mirror handle is alive — its contents silently go stale", floor=4)
+    n = 0
+    for adt, (file, inner, ev, mirror_inner, sub, mirrored) in OBSERVABLES.items():
+        a = F.adt(mirrored)
+        has_subscribe = F.fns.get(f"{mirrored}::subscribe") is not None
+        if not has_subscribe:
+            continue
+        n += 1
+        strong = []
+        for v in a["variants"]:
+            for f in v["fields"]:
+                ty = f["ty"]
+                if "rch::broadcast::sender::Sender<" in ty or "rch::broadcast::Sender<" in ty:
+                    inner_ty = ty
+                    weak = ty.startswith(("std::sync::Weak<", "std::rc::Weak<"))
+                    if not weak:
+                        strong.append((f["name"], ty))
+        short = mirrored.split("::")[-1]
+        ck.expect(not strong, f"{short}#relay-owned-by-task", "no strong relay sender in the handle",
+                  f"{mirrored} owns the relay sender itself (field `{strong[0][0] if strong else ''}`: {strong[0][1][:70] if strong else ''}): "
+                  f"when its mirror task stops on an error the relay channel stays open and subscribers of the mirror are never told",
+                  f"{a['file']}:{a['line']}")
+    ck.expect(n >= 4, "mirrors#count", f"{n} mirror types with subscribe()", f"only {n} mirror types with subscribe() found", None)
+
+
 def run(ck, F):
-    for r in (r14_1, r14_2, r14_3, r14_4, r14_5, r14_6, r14_7):
+    for r in (r14_1, r14_2, r14_3, r14_4, r14_5, r14_6, r14_7, r14_8):
         ck.run_rule(r)
     # shared clauses: observable collections report lag through rch::broadcast (marker before re-admission, surfaced by the
     # receiver); a subscription to a mirror must take snapshot and event stream in one step
